@@ -4,7 +4,7 @@ import os
 import shutil
 import warnings
 from pathlib import Path
-from typing import TYPE_CHECKING, Literal, TypeVar
+from typing import TYPE_CHECKING, Any, Literal, TypeVar
 
 import numpy as np
 import zarr
@@ -236,6 +236,31 @@ def _get_common_type_dims(arr_seq: Sequence[ArrayLike | None]) -> tuple[np.dtype
         dtype = np.dtype("int64")
         ndim = 1
     return dtype, ndim
+
+
+def default_for_value(value: Any) -> Any:
+    """Return a type-appropriate default value for filling missing entries.
+
+    Uses the following heuristics:
+    - np.generic (np.bool_, np.int64, np.float32, etc.) -> type(value)(0)
+    - bool, int, float -> type(value)(0) (e.g. False, 0, 0.0); bool is a subclass of
+      int, so the default of a boolean property is False and the property stays boolean
+    - str -> ""
+    - Otherwise, returns the value itself, which preserves type and shape but
+      may be confusing or inefficient for some types.
+
+    Args:
+        value: A non-missing example value to determine the default from.
+
+    Returns:
+        A default value with the same type (and shape, for the fallback case).
+    """
+    if isinstance(value, np.generic | bool | int | float):
+        return type(value)(0)
+    elif isinstance(value, str):
+        return ""
+    else:
+        return value
 
 
 def construct_var_len_props(arr_seq: Sequence[ArrayLike | None]) -> PropDictNpArray:
